@@ -50,8 +50,8 @@ def seq_reference(sc, order, maxto=None):
                         r = apply_op(ops[s], disk[n])
                     except ScriptRaise:
                         r = PassResult.INVALID
-                    if r == PassResult.STOP or r == PassResult.ERROR:
-                        break
+                    if r == PassResult.STOP or (r == PassResult.ERROR and not sc.get('cfg', {}).get('silent')):
+                        break      # (with --shaddap a helper error is ignored like an invalid candidate)
                     if not isinstance(r, PassResult) and r != disk[n]:
                         trial = dict(disk)
                         trial[n] = r
